@@ -186,17 +186,26 @@ _BRANCH = {"<core::result::Result<T, E> as core::ops::try_trait::Try>::branch": 
 
 def _branch_result(t, env):
     """`r = Try::branch(x)` with the variant of x known: the variant of the ControlFlow it returns"""
+    if (t.get("fn") or "").endswith("FromResidual::from_residual"):
+        # `?` re-wrapping a failure: the result is the failure variant of the function's return type
+        res = t.get("res") or ""
+        if res.startswith("<core::result::Result<"):
+            return ("v", "core::result::Result", 1, (None,))
+        if res.startswith("<core::option::Option<"):
+            return ("v", "core::option::Option", 0, ())
+        return None
     m = _BRANCH.get(t.get("res") or "")
     if m is None or not t["args"]:
         return None
     src = mir.op_local(t["args"][0])
     v = env.get(src)
     if isinstance(v, tuple) and v[2] in m:
-        return ("v", "core::ops::control_flow::ControlFlow", m[v[2]])
+        # Ok(x) -> Continue(x), Some(x) -> Continue(x); the Break payload is the residual (not tracked)
+        return ("v", "core::ops::control_flow::ControlFlow", m[v[2]], v[3] if m[v[2]] == 0 else (None,))
     return None
 
 
-def threaded(F, body, max_chain=12):
+def threaded(F, body, max_chain=20):
     """Jump threading for constant-assigned locals: `x = const c; goto .. -> J: switch x` (the shape `a || b`, `a && b`,
     `let flag = ..; if flag` and an inlined bool-returning helper all lower to) is rewritten so that the path carrying the
     constant goes straight to the arm it selects, through private copies of the straight-line blocks in between.
@@ -227,8 +236,18 @@ def threaded(F, body, max_chain=12):
                             src = mir.op_local(rv["a"])
                             if src is not None and src in env:
                                 v = env[src]
+                            elif src is None:
+                                # payload of a known variant: y = (x as V).i
+                                q = mir.op_place(rv["a"])
+                                xv = env.get(q["l"]) if isinstance(q, dict) else None
+                                if isinstance(xv, tuple) and len(q["p"]) == 2 and q["p"][0].startswith("d|") and q["p"][1].startswith("f|"):
+                                    fld = q["p"][1].split("|", 3)[3]
+                                    if fld.isdigit() and int(fld) < len(xv[3]):
+                                        v = xv[3][int(fld)]
                     elif rv["k"] == "agg" and rv.get("ak") == "adt" and rv.get("adt") in _SUMS:
-                        v = ("v", rv["adt"], int(rv["vi"]))       # a freshly built Ok(..)/Err(..)/Some(..)/None
+                        # a freshly built Ok(..)/Err(..)/Some(..)/None, with what is known about its payload
+                        v = ("v", rv["adt"], int(rv["vi"]),
+                             tuple(env.get(mir.op_local(o)) if mir.op_local(o) is not None else mir.op_const(o) for o in rv["ops"]))
                     elif rv["k"] == "discr" and isinstance(rv["pl"], int) and isinstance(env.get(rv["pl"]), tuple):
                         v = env[rv["pl"]][2]
                     if v is not None and l not in borrowed:
@@ -261,7 +280,7 @@ def threaded(F, body, max_chain=12):
             cur = _single_succ(t)
             if cur is None:
                 continue
-            path, target = [], None
+            path, resolved = [], []
             while cur is not None and cur not in path and len(path) < max_chain and cur != bd:
                 blk = blocks[cur]
                 step_env(env, blk["s"])
@@ -271,7 +290,10 @@ def threaded(F, body, max_chain=12):
                     l = mir.op_local(tt["op"])
                     if l is not None and isinstance(env.get(l), int):
                         hit = [tg for v, tg in tt["ts"] if int(v) == env[l]]
-                        target = hit[0] if hit else tt["else"]
+                        tgt = hit[0] if hit else tt["else"]
+                        resolved.append((len(path) - 1, tgt))
+                        cur = tgt           # keep going with what is known: the next test may be decided too
+                        continue
                     break
                 if tt["k"] == "call" and "dest" in tt:
                     br = _branch_result(tt, env)
@@ -281,16 +303,20 @@ def threaded(F, body, max_chain=12):
                 if not env:
                     break
                 cur = _single_succ(tt)
-            if target is None:
+            if not resolved:
                 continue
+            last_idx, target = resolved[-1]
+            path = path[:last_idx + 1]
             # private copies of the chain for this predecessor
             base = len(blocks)
             for i, pb in enumerate(path):
                 nb = copy.deepcopy(blocks[pb])
                 nb["thr"] = pb
                 if i + 1 < len(path):
-                    tt = nb["t"]
-                    tt["to"] = base + i + 1
+                    if nb["t"]["k"] == "switch":
+                        nb["t"] = {"k": "goto", "to": base + i + 1, "ln": nb["t"].get("ln", 0), "thr_switch": True}
+                    else:
+                        nb["t"]["to"] = base + i + 1
                 else:
                     nb["t"] = {"k": "goto", "to": target, "ln": nb["t"].get("ln", 0), "thr_switch": True}
                 blocks.append(nb)
